@@ -554,8 +554,33 @@ const (
 	return &World{Name: "T17", Module: DefaultModule, Files: map[string]string{"t17/c.go": src}, Patterns: []string{"./t17"}, Tags: []string{"T17", "enum-ignore-case"}}
 }
 
+// T18: several goverter:autoMap sources of the same depth that all provide one target field:
+// the ambiguity diagnostic (candidate list and suggested goverter:map line) must not follow the
+// order in which the sources are collected.
+func T18(rng *rand.Rand) *World {
+	subs := names(rng, "Part", 3+rng.IntN(3))
+	var auto, fields, types string
+	for _, n := range subs {
+		auto += "    // goverter:autoMap " + n + "\n"
+		fields += "    " + n + " " + n + "T\n"
+		types += "type " + n + "T struct{ Street string; Zip string }\n"
+	}
+	src := fmt.Sprintf(`package t18
+
+// goverter:converter
+type Converter interface {
+%s    Convert(source In) Out
+}
+
+type In struct {
+%s}
+type Out struct{ Street string }
+%s`, auto, fields, types)
+	return &World{Name: "T18", Module: DefaultModule, Files: map[string]string{"t18/c.go": src}, Patterns: []string{"./t18"}, Tags: []string{"T18", "automap-ambiguity", "failing"}}
+}
+
 // Templates lists all template constructors.
-var Templates = []func(*rand.Rand) *World{T1, T2, T3, T4, T5, T6, T7, T8, T9, T10, T11, T12, T13, T14, T15, T16, T17}
+var Templates = []func(*rand.Rand) *World{T1, T2, T3, T4, T5, T6, T7, T8, T9, T10, T11, T12, T13, T14, T15, T16, T17, T18}
 
 // Combine merges several worlds into one module by prefixing their package directories.
 // Import paths inside the sources are rewritten accordingly.
